@@ -88,6 +88,18 @@ def _self_attr(node: ast.AST, obj: str = 'self') -> Optional[str]:
     return None
 
 
+def _properties(cls: ast.ClassDef) -> dict[str, ast.expr]:
+    """Read-only view of the class's properties: name -> the expression the getter returns (getters whose body is a
+    docstring plus one `return`).  Other getters map to themselves called opaquely (absent from the dict)."""
+    out: dict[str, ast.expr] = {}
+    for n in cls.body:
+        if isinstance(n, ast.FunctionDef) and any(ast.unparse(d) == 'property' for d in n.decorator_list):
+            body = [st for st in n.body if not (isinstance(st, ast.Expr) and isinstance(st.value, ast.Constant))]
+            if len(body) == 1 and isinstance(body[0], ast.Return) and body[0].value is not None:
+                out[n.name] = body[0].value
+    return out
+
+
 class ClassInfo:
     """fields (ordered), kinds, and for each constructor parameter: the field it feeds and the wrap applied."""
 
@@ -99,6 +111,12 @@ class ClassInfo:
         self.kwonly: list[str] = []
         self.feeds: dict[str, tuple[str, str]] = {}       # param -> (field, wrap) wrap in direct|container|deepconv|newid
         self.ann: dict[str, Optional[str]] = {}
+        # round 3: everything needed to SPECIALISE the constructor to one call (see `specialise`)
+        self.defaults: dict[str, Optional[ast.expr]] = {}                     # param -> default expression (None: required)
+        self.guarded_stores: dict[str, list[tuple[ast.expr, list[tuple[ast.expr, bool]]]]] = {}   # field -> [(value, [(test, polarity)])]
+        self.locals: dict[str, ast.expr] = {}
+        self.loop_fed: set[str] = set()                                       # parameters consumed by a recognised loop
+        self.props: dict[str, ast.expr] = _properties(cls)                    # read-only view: property -> returned expression
         if _is_attrs(cls):
             self.fields = []
             for n in cls.body:
@@ -127,6 +145,11 @@ class ClassInfo:
             raise TranslateError(f'{cls.name}.__init__: *args/**kwargs not supported')
         self.params = [x.arg for x in a.args[1:]]
         self.kwonly = [x.arg for x in a.kwonlyargs]
+        pos = a.args[1:]
+        for x, d in zip(pos, [None] * (len(pos) - len(a.defaults)) + list(a.defaults)):
+            self.defaults[x.arg] = d
+        for x, d in zip(a.kwonlyargs, a.kw_defaults):
+            self.defaults[x.arg] = d
         pann = {x.arg: (ast.unparse(x.annotation) if x.annotation is not None else None) for x in a.args[1:] + a.kwonlyargs}
         allp = set(self.params) | set(self.kwonly)
         stores: dict[str, list[ast.expr]] = {}
@@ -134,7 +157,7 @@ class ClassInfo:
         loops: list[ast.For] = []
         inner_ann: dict[str, str] = {}
 
-        def scan(body: list[ast.stmt]) -> None:
+        def scan(body: list[ast.stmt], tests: list[tuple[ast.expr, bool]] = []) -> None:
             for st in body:
                 if isinstance(st, ast.Assign):
                     for t in st.targets:
@@ -143,18 +166,20 @@ class ClassInfo:
                             f = _self_attr(tt)
                             if f is not None:
                                 stores.setdefault(f, []).append(st.value)
+                                self.guarded_stores.setdefault(f, []).append((st.value, list(tests)))
                             elif isinstance(tt, ast.Name):
                                 local[tt.id] = st.value
                 elif isinstance(st, ast.AnnAssign):
                     f = _self_attr(st.target)
                     if f is not None and st.value is not None:
                         stores.setdefault(f, []).append(st.value)
+                        self.guarded_stores.setdefault(f, []).append((st.value, list(tests)))
                         inner_ann[f] = ast.unparse(st.annotation)
                     elif isinstance(st.target, ast.Name) and st.value is not None:
                         local[st.target.id] = st.value
                 elif isinstance(st, ast.If):
-                    scan(st.body)
-                    scan(st.orelse)
+                    scan(st.body, tests + [(st.test, True)])
+                    scan(st.orelse, tests + [(st.test, False)])
                 elif isinstance(st, ast.For):
                     loops.append(st)
                 elif isinstance(st, (ast.Expr, ast.Raise, ast.Pass)):
@@ -162,6 +187,7 @@ class ClassInfo:
                 else:
                     raise TranslateError(f'{cls.name}.__init__: unsupported statement {type(st).__name__} (line {st.lineno})')
         scan(init.body)
+        self.locals = local
         slots = _slots(cls)
         self.fields = slots if slots is not None else list(stores)
         for f in self.fields:
@@ -182,8 +208,10 @@ class ClassInfo:
             it = ast.unparse(lp.iter)
             if cls.name == 'Entity' and it == 'keys.items()' and ast.unparse(lp.body[0]) == 'self[k] = v' and len(lp.body) == 1:
                 self.feeds['keys'] = ('_keys', 'container')
+                self.loop_fed.add('keys')
             elif cls.name == 'EntityFixup' and it in ('fixup', 'extra_vals'):
                 self.feeds.setdefault('fixup', ('_fixup', 'container'))
+                self.loop_fed.add('fixup')
             else:
                 raise TranslateError(f'{cls.name}.__init__: unrecognised loop over `{it}` (line {lp.lineno})')
         for f in self.fields:
@@ -197,19 +225,37 @@ class ClassInfo:
                         a0 = pann[p]
             self.ann[f] = a0
 
-    def _feed(self, v: ast.expr, params: set[str], local: dict[str, ast.expr]) -> Optional[tuple[str, str]]:
-        """Which parameter feeds this right-hand side, and through which wrap."""
+    def _feed(self, v: ast.expr, params: set[str], local: dict[str, ast.expr],
+              spec: Optional['Spec'] = None) -> Optional[tuple[str, str]]:
+        """Which parameter feeds this right-hand side, and through which wrap.  With a `spec` (one concrete call:
+        which parameters are bound to what) conditionals are decided by partial evaluation where possible; where not,
+        the parameters of the test are recorded as GUARDS of the store (`spec.guards`), and `p or default` records
+        that the value survives only when truthy (`spec.ordefault`)."""
         if isinstance(v, ast.Name):
             if v.id in params:
                 return v.id, 'direct'
             if v.id in local:
-                return self._feed(local[v.id], params, local)
+                return self._feed(local[v.id], params, local, spec)
             return None
         if isinstance(v, ast.BoolOp) and isinstance(v.op, ast.Or):
-            return self._feed(v.values[0], params, local)
+            if spec is not None:
+                first = spec.peval(v.values[0], params, local)
+                if first is not UNKNOWN and not first and len(v.values) == 2:
+                    return self._feed(v.values[1], params, local, spec)      # `p or d` with p known falsy: d
+                if first is UNKNOWN:
+                    spec.ordefault = True
+            return self._feed(v.values[0], params, local, spec)
         if isinstance(v, ast.IfExp):
-            b = self._feed(v.body, params, local)
-            o = self._feed(v.orelse, params, local)
+            if spec is not None:
+                t0 = spec.peval(v.test, params, local)
+                if t0 is not UNKNOWN:
+                    return self._feed(v.body if t0 else v.orelse, params, local, spec)
+                if _truthiness_test(v.test):
+                    spec.truthy_tests |= _names_in(v.test, params, local)    # `X(p) if p else None`: survives when truthy
+                else:
+                    spec.guards |= _names_in(v.test, params, local)
+            b = self._feed(v.body, params, local, spec)
+            o = self._feed(v.orelse, params, local, spec)
             t = ast.unparse(v.test)
             if b and o and b != o:
                 raise TranslateError(f'{self.name}.__init__: conditional store mixes parameters ({ast.unparse(v)})')
@@ -223,16 +269,16 @@ class ClassInfo:
         if isinstance(v, ast.Call):
             fn = ast.unparse(v.func)
             if fn in ('list', 'set', 'EntityFixup', '_KeyDict', 'dict') and len(v.args) == 1 and not v.keywords:
-                inner = self._feed(v.args[0], params, local)
+                inner = self._feed(v.args[0], params, local, spec)
                 return (inner[0], 'container') if inner else None
             if fn == 'Vec' and len(v.args) == 1:
-                inner = self._feed(v.args[0], params, local)
+                inner = self._feed(v.args[0], params, local, spec)
                 return (inner[0], 'deepconv') if inner else None
             if fn == 'conv_kv' and len(v.args) == 1:
-                inner = self._feed(v.args[0], params, local)
+                inner = self._feed(v.args[0], params, local, spec)
                 return (inner[0], 'direct') if inner else None
             if fn.endswith('.get_id') and len(v.args) == 1:
-                inner = self._feed(v.args[0], params, local)
+                inner = self._feed(v.args[0], params, local, spec)
                 return (inner[0], 'newid') if inner else None
             if fn in ('_KeyDict', 'Vec', 'Array', 'UVAxis', 'set', 'list', 'dict') or not v.args:
                 return None
@@ -243,26 +289,294 @@ class ClassInfo:
             return None
         raise TranslateError(f'{self.name}.__init__: unrecognised field store `{ast.unparse(v)}`')
 
+    def specialise(self, bound: dict[str, ast.expr], argann: dict[str, Optional[str]]) -> 'Specialised':
+        """The constructor SPECIALISED to one call: `bound` = the argument expression of every parameter the call
+        gives (in the caller's scope), `argann` = the static annotation of an argument that is a plain field read.
+        Parameters that are not given take their default.  For every field: which parameter's value reaches it (through
+        which wrap) in the branch this call selects, which parameters only STEER it (guards the call does not decide),
+        and whether the value survives only when truthy (`p or default`)."""
+        out = Specialised()
+        allp = set(self.params) | set(self.kwonly)
+        if not self.guarded_stores:          # attrs class: parameter = field, converters in self.feeds
+            for p, (f, wrap) in self.feeds.items():
+                out.field[f] = (p, wrap, set(), False)
+            return out
+        consts: dict[str, object] = {}
+        for p in allp:
+            e = bound.get(p, self.defaults.get(p))
+            if isinstance(e, ast.Constant):
+                consts[p] = e.value
+        for f, stores in self.guarded_stores.items():
+            chosen: list[tuple[Optional[tuple[str, str]], set[str], bool]] = []
+            stmt_guards: set[str] = set()
+            for v, tests in stores:
+                spec = Spec(consts, {p: argann.get(p) for p in bound}, set(bound))
+                live = True
+                for t, pol in tests:
+                    t0 = spec.peval(t, allp, self.locals)
+                    if t0 is UNKNOWN:
+                        stmt_guards |= _names_in(t, allp, self.locals)
+                    elif bool(t0) != pol:
+                        live = False
+                        break
+                if not live:
+                    continue
+                fed = self._feed(v, allp, self.locals, spec)
+                # a truthiness test on the value parameter itself = "survives when truthy"; on another parameter = a guard
+                own = {fed[0]} if fed is not None else set()
+                chosen.append((fed, set(spec.guards) | (spec.truthy_tests - own), spec.ordefault or bool(spec.truthy_tests & own)))
+            feds = {c[0] for c in chosen if c[0] is not None}
+            if len(feds) > 1:
+                raise TranslateError(f'{self.name}.__init__: field {f} is fed by different parameters in branches this call '
+                                     f'does not decide: {sorted(feds)}')
+            guards = set().union(stmt_guards, *[c[1] for c in chosen])
+            fed = next(iter(feds)) if feds else None
+            if fed is not None:
+                out.field[f] = (fed[0], fed[1], guards, any(c[2] for c in chosen))
+            elif guards:
+                out.field[f] = (None, 'direct', guards, False)
+        for p in self.loop_fed:
+            f, wrap = self.feeds[p]
+            out.field.setdefault(f, (p, wrap, set(), False))
+        return out
+
+
+class _Unknown:
+    def __repr__(self) -> str:
+        return 'UNKNOWN'
+
+
+UNKNOWN = _Unknown()
+_SCALAR_ANN = {'str', 'int', 'float', 'bool'}
+
+
+def _truthiness_operand(t: ast.expr) -> Optional[ast.expr]:
+    """`x`, `not x`, `x is None`, `x is not None` (x a name or attribute): tests of the value's presence, not of its
+    magnitude.  Returns x."""
+    if isinstance(t, ast.UnaryOp) and isinstance(t.op, ast.Not):
+        return _truthiness_operand(t.operand)
+    if isinstance(t, (ast.Name, ast.Attribute)):
+        return t
+    if isinstance(t, ast.Compare) and len(t.ops) == 1 and isinstance(t.ops[0], (ast.Is, ast.IsNot)) \
+            and isinstance(t.left, (ast.Name, ast.Attribute)) and isinstance(t.comparators[0], ast.Constant) \
+            and t.comparators[0].value is None:
+        return t.left
+    return None
+
+
+def _truthiness_test(t: ast.expr) -> bool:
+    return _truthiness_operand(t) is not None
+
+
+def _names_in(e: ast.AST, params: set[str], local: dict[str, ast.expr], _depth: int = 0) -> set[str]:
+    """Constructor parameters an expression depends on (constructor locals resolved)."""
+    out: set[str] = set()
+    if _depth > 8:
+        raise TranslateError('constructor local-name resolution too deep')
+    for n in ast.walk(e):
+        if isinstance(n, ast.Name):
+            if n.id in params:
+                out.add(n.id)
+            elif n.id in local:
+                out |= _names_in(local[n.id], params, local, _depth + 1)
+    return out
+
+
+class Specialised:
+    def __init__(self) -> None:
+        # field -> (value parameter or None, wrap, guard parameters, survives only when truthy)
+        self.field: dict[str, tuple[Optional[str], str, set[str], bool]] = {}
+
+
+class Spec:
+    """Partial evaluation of constructor tests for one call."""
+
+    def __init__(self, consts: dict[str, object], argann: dict[str, Optional[str]], bound: set[str]) -> None:
+        self.consts, self.argann, self.bound = consts, argann, bound
+        self.guards: set[str] = set()
+        self.truthy_tests: set[str] = set()
+        self.ordefault = False
+
+    def peval(self, e: ast.expr, params: set[str], local: dict[str, ast.expr], _depth: int = 0) -> object:
+        if _depth > 8:
+            return UNKNOWN
+        if isinstance(e, ast.Constant):
+            return e.value
+        if isinstance(e, ast.Name):
+            if e.id in self.consts:
+                return self.consts[e.id]
+            if e.id in local and e.id not in params:
+                return self.peval(local[e.id], params, local, _depth + 1)
+            return UNKNOWN
+        if isinstance(e, ast.UnaryOp) and isinstance(e.op, ast.Not):
+            x = self.peval(e.operand, params, local, _depth + 1)
+            return UNKNOWN if x is UNKNOWN else (not x)
+        if isinstance(e, ast.BoolOp):
+            vals = [self.peval(x, params, local, _depth + 1) for x in e.values]      # truthiness only
+            known = [bool(x) for x in vals if x is not UNKNOWN]
+            if isinstance(e.op, ast.And):
+                if not all(known):
+                    return False
+            elif any(known):
+                return True
+            return UNKNOWN if len(known) < len(vals) else isinstance(e.op, ast.And)
+        if isinstance(e, ast.Compare) and len(e.ops) == 1:
+            a, b = self.peval(e.left, params, local, _depth + 1), self.peval(e.comparators[0], params, local, _depth + 1)
+            if a is UNKNOWN or b is UNKNOWN:
+                return UNKNOWN
+            op = e.ops[0]
+            if isinstance(op, (ast.Is, ast.IsNot)) and (a is None or b is None or isinstance(a, bool) or isinstance(b, bool)):
+                return (a is b) == isinstance(op, ast.Is)
+            if isinstance(op, (ast.Eq, ast.NotEq)):
+                return (a == b) == isinstance(op, ast.Eq)
+            return UNKNOWN
+        if isinstance(e, ast.Call) and isinstance(e.func, ast.Name) and e.func.id == 'isinstance' and len(e.args) == 2 \
+                and isinstance(e.args[0], ast.Name) and isinstance(e.args[1], ast.Name):
+            p, t = e.args[0].id, e.args[1].id
+            if p in self.consts:
+                c = self.consts[p]
+                if t in _SCALAR_ANN:
+                    return type(c).__name__ == t or (t == 'int' and isinstance(c, bool))
+                return False if isinstance(c, (str, int, float, bool, type(None))) else UNKNOWN
+            ann = self.argann.get(p)
+            if ann is not None:
+                a = ann.replace("'", '')
+                if a == t:
+                    return True
+                if a in _SCALAR_ANN and t not in _SCALAR_ANN | {'object'}:
+                    return False            # the argument is a field declared str/int/float/bool: never an instance of a library class
+            return UNKNOWN
+        return UNKNOWN
+
 
 # ---------------------------------------------------------------------------------------------- argument classification
 SHALLOW_BUILDERS = ('attrs.evolve', 'attr.evolve', 'copy.copy', 'dataclasses.replace')
 
 
-def src_reads(e: ast.AST, src: str, env: dict[str, ast.expr], _depth: int = 0) -> list[str]:
+def src_reads(e: ast.AST, src: str, env: dict[str, ast.expr], info: Optional['ClassInfo'] = None, _depth: int = 0) -> list[str]:
     """The fields of the source object (`<src>.X`) an expression reads, local names resolved through `env`
-    (ordered, without duplicates).  This is what decides FROM WHICH field a field of the copy is built."""
+    (ordered, without duplicates).  This is what decides FROM WHICH field a field of the copy is built.
+    A property whose getter is just `return self.g` (an alias) counts as a read of g; any other property keeps its
+    own name (which is no field: the source check then rejects the row)."""
     if _depth > 8:
         raise TranslateError('src_reads: local-name resolution too deep')
     out: list[str] = []
     for n in ast.walk(e):
         f = _self_attr(n, src)
+        if f is not None and info is not None and f not in info.fields and f in info.props \
+                and _self_attr(info.props[f], 'self') is not None:
+            f = _self_attr(info.props[f], 'self')
         if f is not None and f not in out:
             out.append(f)
         elif isinstance(n, ast.Name) and n.id in env and n.id != src:
-            for g in src_reads(env[n.id], src, {k: v for k, v in env.items() if k != n.id}, _depth + 1):
+            for g in src_reads(env[n.id], src, {k: v for k, v in env.items() if k != n.id}, info, _depth + 1):
                 if g not in out:
                     out.append(g)
     return out
+
+
+COPYLIKE_METHODS = {'copy', 'copy_values', 'values', 'items', '__copy__', '__deepcopy__'}
+VALUE_CALLS = {'list', 'set', 'dict', 'tuple', 'frozenset', 'Vec', 'Array', 'sorted', 'attrs.evolve', 'attr.evolve',
+               'copy.copy', 'copy.deepcopy', 'dataclasses.replace'}
+_MODE_RANK = {'ident': 0, 'presence': 1, 'ordefault': 1, 'guard': 2, 'derived': 3}
+
+
+def src_flows(e: ast.AST, src: str, env: dict[str, ast.expr], info: Optional['ClassInfo'], classes: dict[str, 'ClassInfo'],
+              mode: str = 'ident', _depth: int = 0) -> list[tuple[str, str]]:
+    """HOW the fields of the source object (`<src>.X`) flow into an expression: (field, mode) with mode
+    ident (the value itself, possibly copied / re-wrapped in a container), presence (`x is not None` / truthiness of
+    the value steering a conditional), guard (any other test steering a conditional) or
+    derived (goes through a comparison, arithmetic, formatting, slicing, projection or an unknown call: the value
+    cannot in general be recovered).  Properties of the source class are read THROUGH (their getter inlined)."""
+    if _depth > 10:
+        raise TranslateError('src_flows: resolution too deep')
+    out: list[tuple[str, str]] = []
+
+    def add(items: list[tuple[str, str]]) -> None:
+        for it in items:
+            if it not in out:
+                out.append(it)
+
+    def worse(m: str) -> str:
+        return m if _MODE_RANK[m] >= _MODE_RANK[mode] else mode
+
+    def go(x: ast.AST, m: str) -> None:
+        add(src_flows(x, src, env, info, classes, m, _depth + 1))
+    f = _self_attr(e, src)
+    if f is not None:
+        if info is not None and f not in info.fields and f in info.props:
+            add(src_flows(info.props[f], 'self', {}, info, classes, mode, _depth + 1) if src == 'self' else
+                src_flows(_rename(info.props[f], 'self', src), src, {}, info, classes, mode, _depth + 1))
+        else:
+            add([(f, mode)])
+        return out
+    if isinstance(e, ast.Name):
+        if e.id in env and e.id != src:
+            add(src_flows(env[e.id], src, {k: v for k, v in env.items() if k != e.id}, info, classes, mode, _depth + 1))
+        return out
+    if isinstance(e, ast.Constant):
+        return out
+    if isinstance(e, ast.IfExp):
+        opnd = _truthiness_operand(e.test)
+        if opnd is not None:
+            go(opnd, worse('presence'))
+        else:
+            go(e.test, worse('guard'))
+        go(e.body, mode)
+        go(e.orelse, mode)
+        return out
+    if isinstance(e, ast.BoolOp):
+        for x in e.values:
+            go(x, mode)
+        return out
+    if isinstance(e, ast.Call):
+        fn = e.func
+        fname = ast.unparse(fn)
+        if isinstance(fn, ast.Attribute) and fn.attr in COPYLIKE_METHODS:
+            go(fn.value, mode)
+            for a in list(e.args) + [k.value for k in e.keywords]:
+                go(a, worse('guard'))      # arguments of copy(): options (the map, id mappings), not the value
+            return out
+        if fname in VALUE_CALLS or (isinstance(fn, ast.Name) and fn.id in classes):
+            for a in list(e.args) + [k.value for k in e.keywords]:
+                go(a, mode)
+            return out
+        go(fn, worse('derived'))
+        for a in list(e.args) + [k.value for k in e.keywords]:
+            go(a, worse('derived'))
+        return out
+    if isinstance(e, (ast.ListComp, ast.SetComp, ast.GeneratorExp, ast.DictComp)):
+        for g in e.generators:
+            it = g.iter
+            if isinstance(it, ast.Subscript) and isinstance(it.slice, ast.Slice):
+                go(it.value, worse('derived'))
+            else:
+                go(it, mode)
+            for c in g.ifs:
+                go(c, worse('guard'))
+        for x in ([e.key, e.value] if isinstance(e, ast.DictComp) else [e.elt]):
+            go(x, mode)
+        return out
+    if isinstance(e, ast.Starred):
+        go(e.value, mode)
+        return out
+    if isinstance(e, (ast.Tuple, ast.List, ast.Set)):
+        for x in e.elts:
+            go(x, mode)
+        return out
+    for ch in ast.iter_child_nodes(e):       # comparison, arithmetic, f-string, subscript, projection ...: derived
+        if isinstance(ch, ast.expr):
+            go(ch, worse('derived'))
+    return out
+
+
+def _rename(e: ast.expr, old: str, new: str) -> ast.expr:
+    import copy as _c
+    e2 = _c.deepcopy(e)
+    for n in ast.walk(e2):
+        if isinstance(n, ast.Name) and n.id == old:
+            n.id = new
+    return e2
 
 
 def elem_class(ann: Optional[str]) -> Optional[str]:
@@ -281,14 +595,17 @@ class Census:
         self.how: dict[str, str] = {}
         self.detail: dict[str, str] = {}
         self.srcs: dict[str, list[str]] = {}      # field -> fields of the SOURCE object the expression reads
+        self.flows: dict[str, list[tuple[str, str]]] = {}   # field -> (source field, ident|presence|ordefault|guard|derived)
         self.builder = 'ctor'                       # ctor | shallow (attrs.evolve / copy.copy: unspecified fields shared)
 
-    def set(self, field: str, how: str, expr: ast.AST | str, srcs: Optional[list[str]] = None) -> None:
+    def set(self, field: str, how: str, expr: ast.AST | str, srcs: Optional[list[str]] = None,
+            flows: Optional[list[tuple[str, str]]] = None) -> None:
         if field not in self.info.fields:
             raise TranslateError(f'{self.label}: copy stores unknown field {field}')
         self.how[field] = how
         self.detail[field] = expr if isinstance(expr, str) else ast.unparse(expr)
         self.srcs[field] = list(srcs) if srcs is not None else []
+        self.flows[field] = list(flows) if flows is not None else [(g, 'ident') for g in self.srcs[field]]
 
     def rows(self) -> list[tuple[str, str, str]]:
         return [(f, kind_of(self.info.name, f, self.info.ann.get(f)), self.how.get(f, 'HMissing')) for f in self.info.fields]
@@ -439,17 +756,51 @@ class CopyAnalysis:
                 raise TranslateError(f'{label}: bad keyword {kw.arg}')
             bound[kw.arg] = kw.value
         saved, self.src_class = self.src_class, cname
+        fenv = {**self.rebind, **env}
+        # static annotation of every argument that is a plain read of a field of the source object
+        argann: dict[str, Optional[str]] = {}
         for p, a in bound.items():
-            if p not in info.feeds:
-                if cname == 'Output' and p == 'only_once':
-                    continue
+            a0, hops = a, 0
+            while isinstance(a0, ast.Name) and a0.id in fenv and hops < 8:
+                a0, hops = fenv[a0.id], hops + 1
+            f0 = _self_attr(a0, src)
+            if f0 is not None:
+                argann[p] = info.ann.get(f0)
+        # the constructor specialised to THIS call: which argument reaches which field, which arguments only steer it
+        sp = info.specialise(bound, argann)
+        used: set[str] = set()
+        for field, (p, wrap, guards, ordef) in sp.field.items():
+            gflows: list[tuple[str, str]] = []
+            for g in sorted(guards):
+                if g not in bound:
+                    raise TranslateError(f'{label}: {cname}.__init__ steers field {field} by parameter {g}, whose default '
+                                         f'`{ast.unparse(info.defaults[g]) if info.defaults.get(g) is not None else "<required>"}` cannot be decided')
+                used.add(g)
+                for x, m in src_flows(bound[g], src, fenv, info, self.classes):
+                    it = (x, m if m == 'derived' else 'guard')
+                    if it not in gflows:
+                        gflows.append(it)
+            if p is None or p not in bound:
+                if guards:
+                    cen.set(field, 'HMissing', 'steered by ' + ', '.join(f'{g}={ast.unparse(bound[g])}' for g in sorted(guards)) +
+                            ' (the value argument is not given)', [], gflows)
+                continue
+            used.add(p)
+            a = bound[p]
+            how = self.final_how(info, field, self.classify(a, src, env, params, label), wrap, label)
+            flows = src_flows(a, src, fenv, info, self.classes)
+            if ordef:
+                flows = [(x, 'ordefault' if m == 'ident' else m) for x, m in flows]
+            if guards and how not in ('HCtx', 'HNewId'):
+                how = 'HMissing'      # carried over only for the originals the steering argument lets through
+            cen.set(field, how, ast.unparse(a) + (''.join(f'   [steered by {g}={ast.unparse(bound[g])}]' for g in sorted(guards))),
+                    src_reads(a, src, fenv, info), flows + [g for g in gflows if g not in flows])
+        for p in bound:
+            if p not in used:
                 raise TranslateError(f'{label}: constructor parameter {p} feeds no field')
-            field, wrap = info.feeds[p]
-            cen.set(field, self.final_how(info, field, self.classify(a, src, env, params, label), wrap, label), a,
-                    src_reads(a, src, {**self.rebind, **env}))
         for field, e in post:
             cen.set(field, self.final_how(info, field, self.classify(e, src, env, params, label), 'direct', label), e,
-                    src_reads(e, src, {**self.rebind, **env}))
+                    src_reads(e, src, {**self.rebind, **env}, info), src_flows(e, src, {**self.rebind, **env}, info, self.classes))
         self.src_class = saved
         self.censuses.append(cen)
         return cen
@@ -482,10 +833,11 @@ class CopyAnalysis:
                 raise TranslateError(f'{label}: shallow builder keyword {kw.arg} feeds no field')
             field, wrap = info.feeds[kw.arg]
             cen.set(field, self.final_how(info, field, self.classify(kw.value, src, env, params, label), wrap, label), kw.value,
-                    src_reads(kw.value, src, {**self.rebind, **env}))
+                    src_reads(kw.value, src, {**self.rebind, **env}, info),
+                    src_flows(kw.value, src, {**self.rebind, **env}, info, self.classes))
         for field, e in (post or []):
             cen.set(field, self.final_how(info, field, self.classify(e, src, env, params, label), 'direct', label), e,
-                    src_reads(e, src, {**self.rebind, **env}))
+                    src_reads(e, src, {**self.rebind, **env}, info), src_flows(e, src, {**self.rebind, **env}, info, self.classes))
         self.src_class = saved
         self.censuses.append(cen)
         return cen
@@ -589,7 +941,8 @@ class CopyAnalysis:
         saved, self.src_class = self.src_class, cname
         for field, e in post:
             cen.set(field, self.final_how(info, field, self.classify(e, 'self', env, params, label), 'direct', label), e,
-                    src_reads(e, 'self', {**self.rebind, **env}))
+                    src_reads(e, 'self', {**self.rebind, **env}, info),
+                    src_flows(e, 'self', {**self.rebind, **env}, info, self.classes))
         self.src_class = saved
         self.censuses.append(cen)
         return cen
@@ -606,7 +959,7 @@ class CopyAnalysis:
         info = self.classes['EntityFixup']
         cen = Census('EntityFixup_copy_values', info)
         cen.set('_fixup', 'HDeep' if self.copy_values_how == 'deep' else 'HShallow', rets[0].value,
-                src_reads(rets[0].value, 'self', {}))
+                src_reads(rets[0].value, 'self', {}, info), src_flows(rets[0].value, 'self', {}, info, self.classes))
         cen.set('_matcher', 'HShare', 'rebuilt lazily by the constructor (cache)', ['_matcher'])
         self.censuses.append(cen)
 
@@ -738,7 +1091,7 @@ def translate() -> tuple[str, dict]:
     if len(set(labels)) != len(labels):
         raise TranslateError(f'duplicate census labels {labels}')
     lines = ['(* GENERATED by translate/c09_copy.py from /repo/src/srctools/vmf.py, keyvalues.py. Do not edit. *)',
-             'From Coq Require Import List String Bool.', 'From SV Require Import SM.StoreCopy SM.KvAdd.',
+             'From Coq Require Import List String Bool.', 'From SV Require Import SM.StoreCopy SM.StoreCopyFlow SM.KvAdd.',
              'Import ListNotations.', 'Open Scope string_scope.', '']
     side: dict = {'classes': labels, 'census': {}, 'kv': kv, 'digests': {}, 'sources': {}, 'builder': {}}
     for c in censuses:
@@ -750,6 +1103,12 @@ def translate() -> tuple[str, dict]:
         lines.append(f'Definition sources_{c.label} : list (string * list string) := [')
         lines.append(';\n'.join('  ("%s", [%s])' % (f, '; '.join(f'"{g}"' for g in c.srcs.get(f, []))) for f, _k, _h in rows))
         lines.append('].')
+        # HOW the source fields flow into each field (through the constructor specialised to the call, properties inlined)
+        fl = {'ident': 'FIdent', 'presence': 'FPresence', 'ordefault': 'FOrDefault', 'guard': 'FGuard', 'derived': 'FDerived'}
+        lines.append(f'Definition flows_{c.label} : flowmap := [')
+        lines.append(';\n'.join('  ("%s", [%s])' % (f, '; '.join(f'("{g}", {fl[m]})' for g, m in c.flows.get(f, []))) for f, _k, _h in rows))
+        lines.append('].')
+        side.setdefault('flows', {})[c.label] = {f: [list(x) for x in c.flows.get(f, [])] for f, _k, _h in rows}
         side['census'][c.label] = [[f, k, h, c.detail.get(f, '<not set by copy>')] for f, k, h in rows]
         side['sources'][c.label] = {f: c.srcs.get(f, []) for f, _k, _h in rows}
         side['builder'][c.label] = c.builder
@@ -759,6 +1118,9 @@ def translate() -> tuple[str, dict]:
     lines.append('].')
     lines.append('Definition all_sources : list (string * list (string * list string)) := [')
     lines.append(';\n'.join(f'  ("{c.label}", sources_{c.label})' for c in censuses))
+    lines.append('].')
+    lines.append('Definition all_flows : list (string * flowmap) := [')
+    lines.append(';\n'.join(f'  ("{c.label}", flows_{c.label})' for c in censuses))
     lines.append('].')
     lines.append('Definition class_of_label : list (string * string) := [')
     lines.append(';\n'.join(f'  ("{c.label}", "{c.info.name}")' for c in censuses))
